@@ -353,10 +353,15 @@ impl Display for Number {
 
 impl Number {
     pub fn value(&self) -> i64 {
-        match self.data.as_str() {
-            "true" => 1,
-            "false" => 0,
-            _ => i64::from_str_radix(&self.data, self.radix).ok().unwrap(),
+        self.try_value().unwrap()
+    }
+
+    /// The value of the literal, or `None` when it does not fit in 64 bits
+    pub fn try_value(&self) -> Option<i64> {
+        match self.data.to_ascii_lowercase().as_str() {
+            "true" => Some(1),
+            "false" => Some(0),
+            _ => i64::from_str_radix(&self.data, self.radix).ok(),
         }
     }
 
